@@ -152,6 +152,8 @@ def iter_episode(spec, uid="E", shared=None, events=None):
                            "upons": strip(it["upons"]), "result": result})
         elif op == "law":
             events.append({"k": "law", "law": it["law"], "as": [aid(a) for a in it["as"]], "rids": it["rids"]})
+        elif op == "touch":
+            real(it["a"])
         else:
             raise ValueError(op)
         yield events
